@@ -49,6 +49,7 @@ func cliArgs(s Step, chartDir string) []string {
 			if o := flagS(f, "tplDry"); o != "" {
 				a = append(a, "--dry-run="+o) // whatever the value, template stays a client-only dry run
 			}
+			a = add(a, "includeCRDs", "--include-crds")
 			return a
 		}
 		if t := flagS(f, "tpl"); t != "" && (flagB(f, "dryRun") || flagS(f, "dryRunOption") != "") {
@@ -63,6 +64,7 @@ func cliArgs(s Step, chartDir string) []string {
 			a = add(a, "takeOwnership", "--take-ownership")
 			a = add(a, "atomic", "--atomic")
 			a = add(a, "force", "--force")
+			a = add(a, "includeCRDs", "--include-crds")
 			return a
 		}
 		a := append([]string{"install", RelName, chartDir}, common...)
